@@ -13,6 +13,11 @@ if not m:
 passed, dc, dm, checks = int(m.group(1)), int(m.group(2)), int(m.group(3)), m.group(4).split()
 confirmed = passed == 217 and dc == 0 and dm != 0
 meta = json.load(open(os.path.join(d, "meta.json")))
+_prev = os.path.join(V, "seeded", os.path.basename(d), "meta.json")
+if os.path.exists(_prev):
+    _pm = json.load(open(_prev))
+    if _pm.get("also_caught_by_other_checks"):
+        meta["also_caught_by_other_checks"] = _pm["also_caught_by_other_checks"]
 sid = os.path.basename(d)
 res = {}
 for c in checks:
